@@ -8,6 +8,7 @@
 #include <iostream>
 #include <sstream>
 #include <cstring>
+#include <algorithm>
 #include <cstdio>
 #include <csignal>
 #include <unistd.h>
@@ -47,6 +48,27 @@ namespace vh
             st = p + 1;
         }
         return r;
+    }
+
+    // processor time (user + system, all threads) a live child has used so far, in ms; -1 when it cannot be read
+    inline long child_cpu_ms(pid_t pid)
+    {
+        char path[64]; snprintf(path, sizeof path, "/proc/%d/stat", (int)pid);
+        FILE* fp = fopen(path, "r");
+        if (!fp) return -1;
+        char buf[2048]; size_t n = fread(buf, 1, sizeof buf - 1, fp); fclose(fp); buf[n] = 0;
+        const char* p = strrchr(buf, ')');           // the command name may contain spaces and parentheses
+        if (!p) return -1;
+        unsigned long ut = 0, st = 0; int field = 2;  // p+1 starts field 3 (state)
+        for (const char* q = p + 1; *q; )
+        {
+            while (*q == ' ') ++q;
+            ++field;
+            if (field == 14) { if (sscanf(q, "%lu %lu", &ut, &st) != 2) return -1; break; }
+            while (*q && *q != ' ') ++q;
+        }
+        long hz = sysconf(_SC_CLK_TCK); if (hz <= 0) hz = 100;
+        return (long)((ut + st) * 1000 / (unsigned long)hz);
     }
 
     // Runs f in a forked child under a CPU/wall alarm and an address-space limit.
@@ -91,15 +113,22 @@ namespace vh
         char buf[65536];
         struct timeval t0; gettimeofday(&t0, nullptr);
         bool timed_out = false;
+        const long hard_ms = std::min<long>((long)timeout_ms * 8, (long)timeout_ms + 120000);
         for (;;)
         {
             struct timeval t1; gettimeofday(&t1, nullptr);
             long el = (t1.tv_sec - t0.tv_sec) * 1000 + (t1.tv_usec - t0.tv_usec) / 1000;
             long left = timeout_ms - el;
-            if (left <= 0) { timed_out = true; break; }
+            if (left <= 0)
+            {
+                // past the deadline on the wall clock: the child is only given up when it has also had that much
+                // processor time (a machine busy with other work starves it without it hanging), or at the hard limit
+                if (el >= hard_ms || child_cpu_ms(pid) >= timeout_ms) { timed_out = true; break; }
+                left = 100;
+            }
             struct pollfd pfd = { fds[0], POLLIN, 0 };
             int pr = poll(&pfd, 1, (int)left);
-            if (pr == 0) { timed_out = true; break; }
+            if (pr == 0) continue;
             if (pr < 0) { if (errno == EINTR) continue; break; }
             ssize_t r = read(fds[0], buf, sizeof buf);
             if (r <= 0) break;
